@@ -125,8 +125,12 @@ CLAIMS: dict[str, tuple[str, str, str, str]] = {
         "EMAIL_RE translated from the live pattern objects and run in backtracking order) every link_open of the output carries "
         "exactly href = normalizeLink(url) for a url validateLink accepted — URL-safe ASCII, no dangerous scheme as a browser "
         "reads it — for every source, rule subset, maxNesting and mdurl reformatting; a rejected autolink pushes nothing (the "
-        "text stays). PARTIAL: for link, image, reference and linkify 'every href/src the parser stores went through "
-        "normalizeLink+validateLink' is not a "
+        "text stays); link_hrefs (Props/C05c.lean): with the link rule in the chain (inline links, reference links, autolinks; ten of the twelve "
+        "inline rules, tie `inlinel`) every link_open carries, as its first attribute, an href that is empty or URL-safe ASCII with no dangerous "
+        "scheme — an inline destination is stored only after validateLink accepted its normalised form (a rejected one falls back to the "
+        "reference form or stays text), a reference link stores what env holds, assumed acceptable (hypothesis RefsOK: the reference block rule "
+        "is outside the modelled sub-parser). PARTIAL: for image, the reference block rule and linkify 'every href/src the parser stores went "
+        "through normalizeLink+validateLink' is not a "
         "theorem (oracle on tokens and rendered attributes + advisory AST scan); the "
         "linkifier clause cannot be run (dependency absent). Tie: encode per code point and on %xx strings, "
         "validateLink on normalised strings, browserScheme twin.",
